@@ -75,3 +75,9 @@ claim("C05", "other",
       "Decides the adapter wiring that is necessary for os-like behaviour: per request type the exact set of file-system calls with each path passed through toLocalPath once (symlink target verbatim: known finding F11), client/server open-flag tables composing to the identity for all 48 os flag combinations, error categories preserved for 44 standard error shapes (bare and in os's own wrappers), toLocalPath joining only relative paths. It decides the mapping, not sequences over file-system states; client composites (MkdirAll, RemoveAll, Glob, Walk) are not decided.",
       "Axioms for os.IsNotExist/os.IsPermission/errors.Is/errors.As on the listed shapes; oracle tables in DESIGN.md Appendix A.",
       "DESIGN.md section 4, C05")
+
+claim("C10", "other",
+      "table extraction (type->Method->wrapper->handler method) against the documented API, value provenance of every path stored in a Request (cleanPathWithBase closure), field-to-field provenance, per-path invocation counts, error-shape evaluation",
+      "Decides the adapter's tables and provenance on every path: method strings per request type, routing of each method to its wrapper and handler interface methods, all handler-visible paths produced by cleanPathWithBase from a cleaned start directory (two documented verbatim exceptions), flags/attrs copied from the right packet fields, at most one handler invocation per request, error categories and SFTP codes preserved for the standard error shapes.",
+      "Trusted: path.Clean/Join semantics; oracle tables from request-interfaces.go / request-readme.md (DESIGN.md Appendix A.6).",
+      "DESIGN.md section 4, C10")
